@@ -99,6 +99,8 @@ struct HEvent: lin::Event {};
 struct State {
     bool enabled = true;  // locking enabled (opt wrappers)
     int oracle_excl = 0, oracle_rw = 0, oracle_handle = 0, oracle_reg = 0, oracle_throw = 0;
+    int inflight = 0;  // threads inside an operation on the wrapper (quiescence, C15/C06)
+    uint64_t op_epoch = 0;  // operations begun so far
     std::vector<lin::Event> hist;
     long next_val = 1;
     int sections = 0;  // exclusive sections executed
@@ -681,12 +683,47 @@ struct Exec {
                 break;
             case OP_LOAD:
                 if constexpr (has_load<W>::value) {
+                    // deferred_guarded: a load that runs while nobody else is inside any
+                    // operation on the wrapper (and meets no injected try-lock failure) is an
+                    // access "made while no handle is held": every modification whose
+                    // modify_detach call had returned before it began must have been applied
+                    // by the time it returns (C06 drain clause seen through the register, C15)
+                    std::vector<int> due;
+                    bool quiet = false;
+                    uint64_t ep = 0, ff = 0;
+                    if constexpr (has_modify_detach<W>::value) {
+                        gsim::Oracle o;
+                        if (G->oracle_reg) {
+                            quiet = G->inflight == 1;
+                            ep = G->op_epoch;
+                            ff = gsim::faults_fired(gsim::F_SPURIOUS_TRYLOCK);
+                            if (quiet)
+                                for (size_t i = 0; i < G->hist.size(); i++)
+                                    if (G->hist[i].op == OP_MODIFY_DETACH && G->hist[i].optional &&
+                                        G->hist[i].resp != lin::PENDING)
+                                        due.push_back((int)i);
+                        }
+                    }
                     int e = hist_begin(OP_LOAD, 0, 0);
                     long v = 0;
                     if (guarded_call("load()", [&] { Cell c = w.load(); v = c.w[0]; }))
                         hist_end(e, v);
                     else
                         hist_drop(e);
+                    if (quiet) {
+                        gsim::Oracle o;
+                        if (G->op_epoch == ep && ff == gsim::faults_fired(gsim::F_SPURIOUS_TRYLOCK)) {
+                            gsim::probe("reg.quiescent_load");
+                            for (int i : due)
+                                if (G->hist[i].optional)
+                                    gsim::fail("stale_load", "load() ran while no other thread was "
+                                               "inside any operation on the deferred_guarded and "
+                                               "returned %ld without the modification (value %ld) "
+                                               "whose modify_detach call had already returned",
+                                               v, G->hist[i].a);
+                            if (!due.empty()) gsim::probe("reg.quiescent_load_after_deferred_write");
+                        }
+                    }
                 }
                 break;
             case OP_STORE:
@@ -928,8 +965,17 @@ struct Body {
             gsim::Op op = gsim::prog_op(t, i);
             bool unwind = (op.a & 8) != 0 && !G->oracle_throw;
             op.a &= 7;
+            {
+                gsim::Oracle o;
+                G->inflight++;
+                G->op_epoch++;
+            }
             if (unwind) wl::run_in_unwind([&] { Exec<W>::run_op(*w, op, t, i); });
             else Exec<W>::run_op(*w, op, t, i);
+            {
+                gsim::Oracle o;
+                G->inflight--;
+            }
         }
     }
 };
